@@ -24,6 +24,10 @@ type Program struct {
 	offMu     sync.Mutex
 	strConsts sync.Map // string -> *Object
 	initDone  map[*ssa.Package]bool
+	asmMu     sync.Mutex
+	asmFuncs  map[string]map[string]*asmFunc
+	asmErr    string
+	repo      string
 	initAllow map[string]bool
 	baseHeap  *Heap
 	frozen    bool
@@ -275,6 +279,16 @@ func (in *Interp) call(fn *ssa.Function, args []Val, free []Val) Val {
 		return r
 	}
 	if fn.Blocks == nil {
+		if !in.initMode {
+			if af := in.prog.asmFor(fn); af != nil {
+				in.depth++
+				in.stack = append(in.stack, fn)
+				r := in.runAsm(fn, af, args)
+				in.stack = in.stack[:len(in.stack)-1]
+				in.depth--
+				return r
+			}
+		}
 		if in.initMode {
 			return Val{x: &Poison{"external function " + fn.String()}}
 		}
